@@ -2,7 +2,7 @@
 \* measured: 1 290 distinct states, 504 369 transitions, depth 9, ~20 s on 4 workers
 CONSTANTS
   MaxLen = 3
-  MaxReverts = 2
+  MaxReverts = 1
   Txs <- MCTxs
   FixTxIndexMissingBlock = TRUE
   FixZeroHashState = TRUE
